@@ -44,6 +44,38 @@ func genClose(t *rapid.T) CloseCase {
 	c.Keys = genKeys(t, c.Cfg, 2, 8)
 	m := genMix(t, []string{opPut, opRemove, opFlush, opGet, opIter}, []int{8, 3, 3, 1, 2})
 	c.Ops = genOps(t, m, len(c.Keys), c.Cfg, 3, 25, false)
+	if c.Mode != "failopen" && weighted(t, "emptiedBucket", []int{3, 1}) == 1 {
+		// An emptied bucket on disk (its only key removed and flushed) below a
+		// non-empty one, both pushed out of the in-memory pools by two further
+		// flushes, then a whole-store iteration: the iterator walks over the
+		// empty record list to the next bucket within one call.
+		size := uint32(1) << c.Cfg.Bits
+		lo := (bucketOf(c.Keys[0].Digest, c.Cfg.Bits) + 101) % size
+		if lo == size-1 {
+			lo = size - 2
+		}
+		mk := func(bucket uint32, last byte) KeySpec {
+			d := append([]byte{}, c.Keys[0].Digest...)
+			setBucket(d, c.Cfg.Bits, bucket)
+			d[len(d)-1] = last
+			return KeySpec{Digest: d, Code: c.Keys[0].Code, Codec: c.Keys[0].Codec, CidV0: c.Keys[0].CidV0}
+		}
+		a, b := mk(lo, 0xa1), mk(lo+1, 0xb2)
+		clash := false
+		for _, k := range c.Keys {
+			bk := bucketOf(k.Digest, c.Cfg.Bits)
+			if bk == lo || bk == lo+1 {
+				clash = true
+			}
+		}
+		if !clash {
+			ia, ib := len(c.Keys), len(c.Keys)+1
+			c.Keys = append(c.Keys, a, b)
+			pre := []Op{{K: opPut, Key: ia, VLen: 7}, {K: opPut, Key: ib, VLen: 8}, {K: opFlush}, {K: opRemove, Key: ia}, {K: opFlush},
+				{K: opPut, Key: ib, VLen: 9}, {K: opFlush}, {K: opPut, Key: ib, VLen: 10}, {K: opFlush}, {K: opIter}}
+			c.Ops = append(pre, c.Ops...)
+		}
+	}
 	switch c.Mode {
 	case "parked":
 		c.Point = c17BgPoints[rapid.IntRange(0, len(c17BgPoints)-1).Draw(t, "point")]
